@@ -17,6 +17,19 @@ def v_types(types):
     return out
 
 
+def v_type_chains(types):
+    """name -> list of ancestor names reached through parent links (consecutive duplicates of 'object' collapsed)"""
+    out = {}
+    for n, t in types.items():
+        chain, x, steps = [], t, 0
+        while x is not None and steps < 50:
+            if not chain or not (chain[-1] == x.name == "object"):
+                chain.append(x.name)
+            x, steps = x.parent, steps + 1
+        out[n] = chain
+    return out
+
+
 def v_sig(sig):
     return [(k, v.name) for k, v in sig.items()]
 
